@@ -243,10 +243,18 @@ def inject_all(ctx, spec, inputs, label):
             for runner in ("sync", "async"):
                 s = core.with_async(spec, runner == "async", ctx.rng)
                 sched = rt.Sched(default="rand", rng=ctx.rng) if runner == "async" else None
-                o = core.execute(s, inputs, runner, sched=sched, fail=excs, error_handling=mode)
+                # a third of the executions are observed by a recording processor: what the events layer does with
+                # the exception (its text, its type) must not change what surfaces
+                observed = ctx.rng.random() < 0.34 or kind == "BoomNoStr"
+                procs = None
+                if observed:
+                    Rec_, ARec_ = rt.make_processors()
+                    procs = [Rec_("p")] if runner == "sync" else [ARec_("p", ctx.rng, 1)]
+                    ctx.obs["observed_fault_runs"] += 1
+                o = core.execute(s, inputs, runner, sched=sched, fail=excs, error_handling=mode, processors=procs)
                 ctx.obs["faults_injected"] += 1
                 n += 1
-                case = {"spec": spec, "inputs": inputs, "failing": combo, "mode": mode, "runner": runner, "program": label, "exc_kind": kind}
+                case = {"spec": spec, "inputs": inputs, "failing": combo, "mode": mode, "runner": runner, "program": label, "exc_kind": kind, "with_processor": observed}
                 if o.deadlock or o.inconclusive:
                     ctx.inconc(o.inconclusive or "deadlock under fault injection")
                     continue
